@@ -339,3 +339,37 @@ def path_atoms(node):
                 out.append(('eq', lvalue_key(_strip_casts(x.parent.child('cond'))), lab.child('lhs').cv, True))
         prev, x = x, x.parent
     return out
+
+
+def _leaves(s):
+    if s is None:
+        return False
+    if s.k in ('ReturnStmt', 'BreakStmt', 'ContinueStmt', 'GotoStmt'):
+        return True
+    if s.k == 'CompoundStmt':
+        return any(c is not None and _leaves(c) for c in s.c)
+    return False
+
+
+def path_conds(node, stop=None):
+    """[(condition node, truth value)] under which `node` runs inside `stop` (default: the function body): the enclosing if
+    statements, and the guard clauses that precede it in the enclosing blocks (`if (c) continue;` / `return` / `break` with
+    no else: everything after it runs under !c). `if (a && b) S` and `if (!a) continue; if (b) S` give the same conditions."""
+    out = []
+    x, prev = node.parent, node
+    while x is not None and prev is not stop:
+        if x.k == 'IfStmt':
+            if prev is x.child('then'):
+                out.append((x.child('cond'), True))
+            elif prev is x.child('else'):
+                out.append((x.child('cond'), False))
+        elif x.k == 'CompoundStmt':
+            for c in x.c:
+                if c is None:
+                    continue
+                if c is prev:
+                    break
+                if c.k == 'IfStmt' and c.child('else') is None and _leaves(c.child('then')):
+                    out.append((c.child('cond'), False))
+        prev, x = x, x.parent
+    return out
